@@ -263,6 +263,8 @@ def cases(ctx):
     rng = common.sub_rng(seed, "C18x")
     seen, cand = set(), []
     for name, argv in lines(rng, tier):
+        if "save" in argv[:-1]:
+            continue            # `… save <file>` writes a graph file into the working directory
         key = (name, tuple(argv))
         if key not in seen:
             seen.add(key)
